@@ -37,8 +37,13 @@ func (e *EchoSrv) Echo(ctx context.Context, tok int) (int, error) {
 	return tok, nil
 }
 
+// Echo2 is a second method with the same behaviour: concurrent calls to *different* methods
+// of one client must still get distinct ids.
+func (e *EchoSrv) Echo2(ctx context.Context, tok int) (int, error) { return e.Echo(ctx, tok) }
+
 type EchoCli struct {
-	Echo func(ctx context.Context, tok int) (int, error)
+	Echo  func(ctx context.Context, tok int) (int, error)
+	Echo2 func(ctx context.Context, tok int) (int, error)
 }
 
 // S-CONC: n concurrent callers on one client (DESIGN §3 C02).
@@ -117,7 +122,11 @@ func concBody(s *vsched.Sched, p Param) {
 		s.Go(fmt.Sprintf("caller-%d", i), func() {
 			for ph := 0; ph < phases; ph++ {
 				tok := 100*(ph+1) + i
-				v, err := cli.Echo(context.Background(), tok)
+				call := cli.Echo
+				if i%2 == 1 {
+					call = cli.Echo2
+				}
+				v, err := call(context.Background(), tok)
 				k := fmt.Sprintf("ret-%d", tok)
 				if _, dup := obs.Get(k); dup {
 					s.Violate("call %d returned twice", tok)
